@@ -63,9 +63,9 @@ func init() {
 		QuickRuns: 800, ThoroughRuns: 60000, QuickWall: 80 * time.Second, ThoroughWall: 25 * time.Minute,
 		Rule: "one evaluation = one seeded simulated MUX run: establisher or receiver role, pool size 1..4, 0..5 faults (dial refused, connection closed before/after yamux setup, black-holed connection, reset, partition, remote and local session close) and optionally lifetime cancellation at an arbitrary decision; then faults stop, the pool must refill within 3 virtual minutes, then shutdown. distinct = distinct trace fingerprint; non-trivial = a session was established and a fault (or the shutdown) fired",
 		Real: muxReal, Stub: muxStub, Assume: muxAssume})
-	addSpec(&propSpec{ID: "C11", Profiles: []string{"C11"}, Level: "exploration", Chunk: 1,
-		QuickRuns: 500, ThoroughRuns: 40000, QuickWall: 80 * time.Second, ThoroughWall: 25 * time.Minute,
-		Rule: "one evaluation = one seeded simulated MUX run with RPCs through the MultiClientConn: in-flight RPCs during session churn (must end by their deadline), then at quiescent points: 4*N calls over the full pool (all succeed on registered sessions, spread over >= 2), sessions killed one by one (calls fail over to survivors, CanMakeCalls tracks the set, unavailability with none left), a new session appears (calls resume). distinct = distinct trace fingerprint; non-trivial = sessions were established and at least one RPC succeeded",
+	addSpec(&propSpec{ID: "C11", Profiles: []string{"C11", "C11race"}, Level: "exploration", Chunk: 1,
+		QuickRuns: 3000, ThoroughRuns: 40000, QuickWall: 80 * time.Second, ThoroughWall: 25 * time.Minute,
+		Rule: "one evaluation = one seeded simulated MUX run with RPCs through the MultiClientConn: in-flight RPCs during session churn (must end by their deadline), then at quiescent points: 4*N calls over the full pool (all succeed on registered sessions, spread over >= 2), sessions killed one by one (calls fail over to survivors, CanMakeCalls tracks the set, unavailability with none left), a new session appears (calls resume). Profile C11race: establisher role, the peer stops accepting once a session is up and session kills are aimed at sessions that have just come up (a removal racing the announcement of the addition); after the churn, with nothing new established, the endpoints the client connection may dial must equal the registered sessions. distinct = distinct trace fingerprint; non-trivial = sessions were established and at least one RPC succeeded",
 		Real: muxReal, Stub: muxStub, Assume: muxAssume})
 	addSpec(&propSpec{ID: "C19", Profiles: []string{"C19"}, Level: "fault_enumeration",
 		QuickRuns: 1500, ThoroughRuns: 100000, QuickWall: 80 * time.Second, ThoroughWall: 20 * time.Minute,
